@@ -456,17 +456,21 @@ class GBNFCompiler:
         if simple_char_class:
             char_class = simple_char_class.group(1)
             quantifier = simple_char_class.group(2) or "+"
+            # Regex-only escapes inside the class (\\-, \\., \\$ ...) are "unknown escape" errors in GBNF
+            if re.search(r'\\(?![\\\]\[tnr"x])', char_class):
+                return "[^\\n]+"
             return f"[{char_class}]{quantifier}"
 
-        # For more complex patterns, create a safe approximation
-        # Replace . with [^\\n], preserve quantifiers
-        result = pattern.replace(".", "[^\\n]")
+        # A lone wildcard keeps its quantifier: .+ -> [^\\n]+
+        wildcard = re.match(r"^\.([+*?]?)$", pattern)
+        if wildcard:
+            return "[^\\n]" + wildcard.group(1)
 
-        # If result is empty or just quantifiers, use permissive
-        if not result or result in ["+", "*", "?"]:
-            return "[^\\n]+"
-
-        return result
+        # Anything else (literal text, groups, alternation, escapes, {m,n} ...) is regex syntax,
+        # not GBNF: passed through verbatim it is read as rule references and stray characters
+        # ("abc" -> reference to an undefined rule abc) and the grammar no longer parses.
+        # Degrade gracefully to the permissive pattern, as documented above.
+        return "[^\\n]+"
 
     def _compile_dir(self) -> str:
         """Compile DIR constraint to path pattern."""
